@@ -182,7 +182,7 @@ func (w *c03world) handler(rw http.ResponseWriter, q *http.Request, rec *rig.Ori
 		rw.WriteHeader(599)
 		return
 	}
-	rec.Note = id
+	rec.SetNote(id)
 	if inm := q.Header.Get("If-None-Match"); inm != "" {
 		// a revalidation: the content is unchanged
 		rw.Header().Set("ETag", inm)
